@@ -787,7 +787,7 @@ def run_shard(spec, seed, tier):
     res = core.ShardResult()
     kf = known.load(PROPERTY)
     if spec[0] == "sweep":
-        n = run_sweep(spec[1], res, kf, seed, 3000 if tier == "quick" else 20000)
+        n = run_sweep(spec[1], res, kf, seed, 2000 if tier == "quick" else 20000)
         res.stages["enumeration"] = n
         return res
     if spec[0] == "atheris":
@@ -800,10 +800,10 @@ def run_shard(spec, seed, tier):
         return split_known(fails, kf, res)
 
     if spec[0] == "rand":
-        n = 1500 if tier == "quick" else 5000
+        n = 1000 if tier == "quick" else 5000
         found = core.hyp_search(_strategies(random_only=True, max_ops=30), body, seed, n)
     else:
-        n = 2000 if tier == "quick" else 6000
+        n = 1500 if tier == "quick" else 6000
         found = core.hyp_search(_strategies(max_ops=40 if tier == "quick" else 60), body, seed, n)
     if found:
         res.failures.extend(found)
